@@ -63,6 +63,9 @@ CHECKS = {
     "C17": ("exploration", "runtime monitoring: 'nothing after close' trace/callback/exception monitors in the virtual-time simulator with close requested on a grid of offsets relative to in-flight activities, plus real-time runs of the threaded API",
             "Close is requested while registrations, queued answers, TC holds, browser timers, lookups and the purge are in flight; the wire (including send attempts on dead transports), all spy callbacks and the loop exception handler are watched for two more virtual hours with further traffic; goodbyes before close returns; second close is a no-op; real-time runs cover Zeroconf()/ServiceBrowser threads with close() from another thread.",
             "Armed-but-silent timers are allowed; thread runs use wall-clock waits with a watchdog that yields INCONCLUSIVE.", "2/C17"),
+    "C18": ("exploration", "runtime monitoring: read-instant hook (harness wrapper on ServiceInfo._process_record_threadsafe) + replay model of unexpired reads, deadline/transmission monitors in virtual time",
+            "Lookups are started against cache states from {SRV,TXT,A,AAAA} x {absent,fresh,stale,expired-unpurged} with missing records arriving on a grid of offsets up to and past the deadline; return time, success criterion, the reported fields (replayed from exactly the records handed to the object, skipping expired ones), cache-only path without transmissions and QU-then-QM progression are checked.",
+            "The read instant is observed by a wrapper installed from the harness; a flush-bit record legitimately re-stamps other cached records for one second.", "2/C18"),
 }
 
 NOT_YET = {}
